@@ -105,6 +105,11 @@ TrShuffle  == /\ Ev.op = "shuffle" /\ Ev.out = "ok" /\ UNCHANGED vars
 TrMoveSat == /\ Ev.op = "move_sat" /\ Ev.out = "ok" /\ UNCHANGED vars
              /\ \A ax \in 1..3 : Ev.res[ax] = CASE Ev.dirs[ax] = 1 -> "hi" [] Ev.dirs[ax] = -1 -> "lo" [] OTHER -> "same"
 
+\* a relative move in a WRAPPING continuous world with arbitrary float extents, positions and deltas: the landing point must be
+\* exactly the float (old + delta) modulo extent (computed by the driver with the statement's own formula)
+TrMoveWrap == /\ Ev.op = "move_wrap" /\ Ev.out = "ok" /\ UNCHANGED vars
+              /\ \A ax \in 1..3 : Ev.res[ax] = "exact"
+
 \* growth beyond the listed properties (exercised by `./check drift` only) ---------------------------------------------
 \* get_dimensions(): the extents, cut to the dimensionality of the world class
 TrDims == /\ Ev.op = "dims" /\ Ev.out = "ok" /\ UNCHANGED vars
@@ -122,7 +127,7 @@ TraceInit == /\ Init /\ tid \in 1..Len(Traces) /\ l = 1
 
 TraceNext == /\ l <= Len(Traces[tid]) /\ l' = l + 1 /\ UNCHANGED tid
              /\ (TrNewModel \/ TrNewAgent \/ TrInstall \/ TrJoin \/ TrLeave \/ TrAttach \/ TrDetach \/ TrRegister \/ TrRegisterRaw \/ TrDeregisterRaw \/ TrLookup
-                 \/ TrMove \/ TrMoveTo \/ TrMoveSat \/ TrDims \/ TrGeom \/ TrAgentsAt \/ TrGetAgents \/ TrPick \/ TrShuffle)
+                 \/ TrMove \/ TrMoveTo \/ TrMoveSat \/ TrMoveWrap \/ TrDims \/ TrGeom \/ TrAgentsAt \/ TrGetAgents \/ TrPick \/ TrShuffle)
              /\ ObsOK(Ev.obs, world', agents', env', pool', pos')
 
 TraceSpec == TraceInit /\ [][TraceNext]_tvars
